@@ -2579,7 +2579,7 @@ pub fn run(opts: &Options, prop: &str) -> Report {
         let mut r = Rng::new(*seed);
         super::seed_client_randomness(*seed);
         let eaglesong = r.chance(1, 6);
-        let mut a = if eaglesong { Branch { chain: SimChain::new_eaglesong(), facts: Vec::new(), spent_created: Default::default(), live_at: vec![Vec::new()] } } else { Branch::new() };
+        let mut a = if eaglesong { Branch { chain: SimChain::new_eaglesong(), facts: Vec::new(), spent_created: Default::default(), live_at: vec![Vec::new()], txlog: Vec::new(), orphans: Vec::new(), reconfirmed: Default::default() } } else { Branch::new() };
         let n0 = r.range(24, 50);
         a.extend(&mut r, n0, 1);
         let depth = *r.pick(&[1u64, 1, 2, 2, 3, 3, 4, 4, 4, 6]);
